@@ -344,9 +344,13 @@ def run(prop, tier):
             seen.add(t)
             if len(e["toks"]) >= 4:
                 out.nontriv(t)
-        for e in rel[:3] + rel[-2:]:
-            out.sample({"text": _text(e), "wf": e["wf"], "viol": e["viol"], "raw": e["raw"]["parse"],
-                        "rest": e["raw"]["rest"], "fast": e["fast"]})
+        # samples: one small case and the richest ones (most tokens) of the run
+        rich = sorted(rel, key=lambda e: -len(e["toks"]))[:4]
+        for e in rel[:1] + rich:
+            out.sample({"text": _text(e)[:600], "tokens": [t["k"] for t in e["toks"]][:60], "style": e["style"],
+                        "wf": e["wf"], "viol": e["viol"], "raw": e["raw"]["parse"], "rest": e["raw"]["rest"],
+                        "round_trip": {k: e["rt"].get(k) for k in ("print", "reparse", "eq", "projsame", "fix")},
+                        "fast": e["fast"], "source": e.get("src", "tokens")})
         _vacuity_guard(out, prop, events, rel)
         out.extra["documents_replayed"] = len(events)
         out.extra["relevant_for_property"] = len(rel)
